@@ -1065,7 +1065,8 @@ def isfixedtupletype(obj: type) -> compat.TypeIs[type[tuple]]:
     """
     a = args(obj)
     origin = tp.get_origin(obj)
-    if not a or a[-1] is ...:
+    # `tuple[()]` is the fixed tuple without members - the bare forms carry no `__args__`.
+    if (not a and not hasattr(obj, "__args__")) or (a and a[-1] is ...):
         return False
     return _safe_issubclass(origin, tuple)
 
